@@ -188,6 +188,20 @@ func (fc *FuncCtx) ownSend(st *State, v ast.Expr, n ast.Node) {
 	if r := fc.regionOf(st, v); r.base != "" {
 		rs = append(rs, r)
 	}
+	// a struct literal hands over what its fields point to
+	if cl, ok := unparen(v).(*ast.CompositeLit); ok {
+		for _, el := range cl.Elts {
+			if kv, ok := el.(*ast.KeyValueExpr); ok {
+				el = kv.Value
+			}
+			switch fc.typeOf(el).Underlying().(type) {
+			case *types.Slice, *types.Pointer, *types.Map:
+				if r := fc.regionOf(st, el); r.base != "" {
+					rs = append(rs, r)
+				}
+			}
+		}
+	}
 	key := exprStr(unparen(v))
 	for k, r := range st.regions {
 		if strings.HasPrefix(k, key+".") {
